@@ -351,6 +351,8 @@ func guardT(d time.Duration, f func()) (panicked bool, msg string, hung bool) {
 	}
 }
 
+func newRand(seed int64) *rand.Rand { return rand.New(rand.NewSource(seed)) }
+
 func randBytes(r *rand.Rand, n int) []byte {
 	b := make([]byte, n)
 	for i := range b {
